@@ -9,6 +9,7 @@ import ast
 
 from .core import Unsupported, find_def
 from .driver_py import COQTY, MTr, V, dotted, opaque, prop_listcomp
+from .lazy import normalise
 
 OUTPUTS = ["GenStops.v"]
 COQTY.update({"deme_list": "(list nat)"})
@@ -180,7 +181,7 @@ class STr(MTr):
 
 
 def stop_method(mod, src, cls, params, obj_is, fname):
-    fn = find_def(mod, "__call__", cls)
+    fn = normalise(find_def(mod, "__call__", cls))
     argn = [a.arg for a in fn.args.args]
     if len(argn) != 2 or argn[0] != "self":
         raise Unsupported(f"{src}:{fn.lineno}: {cls}.__call__ signature changed: {argn}")
